@@ -250,6 +250,7 @@ impl<K: EngineKind> Cluster<K> {
         let rec = Recorder::new();
         let net = Net::new(rec.clone(), seed ^ 0xA5A5, t0);
         rec.online().net = Some(net.clone());
+        rec.online().lease.lease_ms = params.lease_ms;
         let shared = Arc::new(Mutex::new(Shared {
             roles: BTreeMap::new(),
             lease_owner: HashMap::new(),
@@ -560,8 +561,15 @@ impl<K: EngineKind> Cluster<K> {
     /// log signatures of node `id` over its whole held range
     pub fn log_sigs(&self, id: u32) -> Option<(u64, u64, Vec<(u64, u64, u64)>)> {
         let n = self.node(id)?;
-        let first = n.raft_log.first_entry_id();
-        let last = n.raft_log.last_entry_id();
+        let mut first = n.raft_log.first_entry_id();
+        let mut last = n.raft_log.last_entry_id();
+        if last == 0 {
+            // empty log: report the snapshot/purge boundary as (first = b + 1, last = b) so
+            // that "covered by compaction" is distinguishable from "lost"
+            let b = n.raft_log.last_log_id().map(|l| l.index).unwrap_or(0);
+            first = b + 1;
+            last = b;
+        }
         let mut v = Vec::new();
         if last > 0 {
             let ents = n.raft_log.get_entries_range(first.max(1)..=last).ok()?;
